@@ -34,7 +34,7 @@ def units(tier):
 
 
 class Pt:
-    __slots__ = ("label", "obj", "inst", "exact", "h24", "hash", "hf", "off", "dec")
+    __slots__ = ("label", "obj", "inst", "exact", "h24", "hash", "hf", "off", "dec", "gen")
 
 
 def pair_exact(x, y):
@@ -70,6 +70,9 @@ def build_pool(ctx, kind, entries):
         x.h24 = r[2] == 24
         x.hf = desc["t"][0] == "hf"
         x.dec = desc["t"][0] in ("hf", "hmf")
+        # a second fraction that is not a binary fraction: exact for comparison/hash/re-zoning (the seconds field is
+        # never touched), but not for the arithmetic of differences and sums (C04)
+        x.gen = desc["t"][0] == "hmsf" and (float(desc["t"][4]) * 2 ** 30) % 1 != 0
         x.off = r[5]
         pool.append(x)
         ctx.state(impl.canon_point(p))
